@@ -42,6 +42,8 @@ type e2eObs struct {
 	EstAlive  bool   `json:"estAlive"`  // the connection established before still works
 	Alive     bool   `json:"alive"`     // the old process is running
 	Exit      string `json:"exit,omitempty"`
+	// adminbusy: what became of the admin connection that had a request in progress, once the admin step was acknowledged
+	Lingering string `json:"lingering,omitempty"` // closed | open | answered: <status line>
 }
 
 type e2eOut struct {
@@ -327,9 +329,11 @@ static_services:
 
 	switch in.Kind {
 	case "scripted", "adminbusy":
+		var ac net.Conn
 		if in.Kind == "adminbusy" {
 			// an admin API client is in the middle of a request when the hand-over begins
-			ac, err := net.DialTimeout("tcp", fmt.Sprintf("127.0.0.1:%d", admin), time.Second)
+			var err error
+			ac, err = net.DialTimeout("tcp", fmt.Sprintf("127.0.0.1:%d", admin), time.Second)
 			if err != nil {
 				out.Infra = "admin port: " + err.Error()
 				return
@@ -387,7 +391,24 @@ static_services:
 				// terminate: the process exits by itself
 				par.waitExit(4 * time.Second)
 			}
-			out.Obs = append(out.Obs, observe(x, name))
+			o := observe(x, name)
+			if ac != nil && x == "admin" && par.alive() {
+				// "stop the admin API" was acknowledged: the API must be gone for the client that was in the middle of
+				// a request too (the new process serves this address from now on)
+				ac.SetDeadline(time.Now().Add(700 * time.Millisecond))
+				ac.Write([]byte("\r\n"))
+				b := make([]byte, 256)
+				n, err := ac.Read(b)
+				switch {
+				case n > 0:
+					o.Lingering = "answered: " + strings.SplitN(string(b[:n]), "\r\n", 2)[0]
+				case err != nil && strings.Contains(err.Error(), "timeout"):
+					o.Lingering = "open"
+				default:
+					o.Lingering = "closed"
+				}
+			}
+			out.Obs = append(out.Obs, o)
 			if !par.alive() {
 				break
 			}
